@@ -73,25 +73,43 @@ fn resolve(idx: usize, n: usize) -> usize {
     }
 }
 
+/// Every operation takes exactly four tape words (kind + three operands), whatever its kind, so
+/// that shrinking one word never shifts the meaning of the words behind it. Kind 0 is "no
+/// operation" and is not recorded: a zeroed stretch of the tape disappears from the history.
 fn gen_history(t: &mut Tape, max_len: usize) -> Vec<Op> {
     let n = t.range(0, max_len);
     let mut ops = vec![];
     for _ in 0..n {
-        let op = match t.weighted(&[6, 3, 3, 1, 2, 4, 1]) {
-            0 => Op::Set { view: t.pick(12), loc: t.pick(3) },
-            1 => Op::SetUntracked { view: t.pick(12), loc: t.pick(3) },
-            2 => Op::Scope { view: t.pick(12), path: t.pick(3) },
-            3 => Op::UseScoped { ctx: t.pick(6), path: t.pick(3) },
-            4 => Op::SubContext {
-                parent: t.pick(6),
-                how: match t.pick(4) {
+        let w = [t.word(), t.word(), t.word(), t.word()];
+        let pick = |i: usize, n: usize| ((w[i] as u64 * n as u64) >> 32) as usize;
+        const WEIGHTS: [u64; 8] = [1, 6, 3, 3, 1, 2, 4, 1];
+        let total: u64 = WEIGHTS.iter().sum();
+        let x = (w[0] as u64 * total) >> 32;
+        let mut acc = 0;
+        let mut kind = WEIGHTS.len() - 1;
+        for (i, wt) in WEIGHTS.iter().enumerate() {
+            acc += wt;
+            if x < acc {
+                kind = i;
+                break;
+            }
+        }
+        let op = match kind {
+            0 => continue,
+            1 => Op::Set { view: pick(1, 12), loc: pick(2, 3) },
+            2 => Op::SetUntracked { view: pick(1, 12), loc: pick(2, 3) },
+            3 => Op::Scope { view: pick(1, 12), path: pick(2, 3) },
+            4 => Op::UseScoped { ctx: pick(1, 6), path: pick(2, 3) },
+            5 => Op::SubContext {
+                parent: pick(1, 6),
+                how: match pick(2, 4) {
                     0 => SubHow::Plain,
                     1 => SubHow::CookieName,
-                    2 => SubHow::Initial(t.pick(3)),
+                    2 => SubHow::Initial(pick(3, 3)),
                     _ => SubHow::Provider,
                 },
             },
-            5 => Op::MakeAccessor { view: t.pick(12), flavour: FLAVOURS[t.pick(4)], key: t.pick(6) },
+            6 => Op::MakeAccessor { view: pick(1, 12), flavour: FLAVOURS[pick(2, 4)], key: pick(3, 6) },
             _ => Op::Tick,
         };
         ops.push(op);
@@ -572,8 +590,8 @@ fn case(t: &mut Tape, max_len: usize) -> CaseResult {
 pub fn run(mut ctx: Ctx) -> ! {
     crate::exec::init();
     let max_len = ctx.tier.scale(40, 60) as usize;
-    // the tape length bounds the history: at most 5 words per op + 1
-    let tape_len = 1 + 5 * max_len;
+    // one word for the length + four per operation
+    let tape_len = 1 + 4 * max_len;
     if let Some(path) = ctx.replay.clone() {
         // replay files carry the tier they were found in
         let tier_len = std::fs::read_to_string(&path)
